@@ -168,10 +168,10 @@ def integrand_correspondence(ctx, obs, nz):
 
 def run(ctx):
     binp = build_harness(ctx)
-    msgs, spans = regen(ctx, ["pm_integrand"])
-    ctx.cov["translated_spans"] = {k: v for k, v in spans.items() if "coincidences" in v["file"]}
+    msgs, spans = regen(ctx, ["pm_integrand", "pm_simpson"])
+    ctx.cov["translated_spans"] = {k: v for k, v in spans.items() if "coincidences" in v["file"] or "integration" in v["file"]}
     for m in msgs:
-        ctx.proof_failures.append(("Gen/PMIntegrand.v", "translator", m))
+        ctx.proof_failures.append(("Gen/PMSimpson.v" if "pm_simpson" in m else "Gen/PMIntegrand.v", "translator", m))
     proved = (not msgs) and prove(ctx, "C05", extra_targets=["Proofs/PMCaseTac.vo"])
     quick = ctx.tier == "quick"
     n_pw, n_pt = (40, 4) if quick else (400, 16)
